@@ -51,6 +51,10 @@ var c14Fams = []selFam{
 	{`q`, []string{"qty", "seq", "q"}, []string{"name", "k", "Q"}},
 	{`^u`, []string{"uid", "u", "user"}, []string{"name", "k", "menu"}},
 	{`limit|multi|upsert`, []string{"limits", "multiplier"}, []string{"limi", "k"}},
+	// patterns that also match operator / wrapper keys on the path ($date, $in, $nin, $min, $oid, $set): not field names
+	{`date`, []string{"birthdate", "updated_date"}, []string{"dat_e", "created"}},
+	{`in`, []string{"pin", "login"}, []string{"name", "color"}},
+	{`^.?(eq|gt|oid|set|binary|each|not)$`, []string{"oid", "set"}, []string{"void", "sets"}},
 	// case-insensitive alternatives written with capitals
 	{`(?i)^(SSN|phoneNumber|Zip)$`, []string{"ssn", "SSN", "phonenumber", "PhoneNumber", "zip"}, []string{"ssn2", "phone", "zipcode"}},
 	{`(?i)^EMAIL$`, []string{"email", "Email", "EMAIL"}, []string{"emails", "e_mail"}},
@@ -111,8 +115,11 @@ func c14Judge(c *ev.Check, re *regexp.Regexp, sn Seen, cells map[string]int, mu 
 			if i == 0 || (i == 2 && (zone == "updates" || zone == "deletes")) {
 				continue // the command part's own name / the statement member (q, u, c, limit …): not a field name
 			}
+			if strings.HasPrefix(p, "$") {
+				continue // operators and extended-JSON wrappers ($in, $date, $set ...) are not field names: they never make a path match
+			}
 			if re.MatchString(p) {
-				if strings.HasPrefix(p, "$") || c14StageArgKeys[p] {
+				if c14StageArgKeys[p] {
 					ambiguous = true
 				} else {
 					should = true
